@@ -154,6 +154,18 @@ def hostile_lines():
     add("keyid-superscript", {"command": "getPubKey", "version": 5, "keyId": "m/44'/\u00b2'/0'/0/0"})
     add("keyid-huge-elt", {"command": "getPubKey", "version": 5, "keyId": "m/44'/" + "9" * 5000 + "'/0'/0/0"})
     add("hash-blanks", dict(SH, message={"hash": " ".join(["ab"] * 32)}))
+    # one decimal digit of an otherwise valid hex field replaced by a digit that is not ASCII
+    def exotic(hexstr, k=0):
+        digits = [i for i, ch in enumerate(hexstr) if ch.isdigit()]
+        i = digits[min(k, len(digits) - 1)]
+        return hexstr[:i] + chr(0x0660 + int(hexstr[i])) + hexstr[i + 1:]
+    add("exotic-digit-receipt", with_auth(SL, receipt=exotic(SL["auth"]["receipt"], 5)))
+    add("exotic-digit-proof", with_auth(SL, receipt_merkle_proof=[exotic(SL["auth"]["receipt_merkle_proof"][0])]))
+    add("exotic-digit-witness", with_msg(SS, witnessScript=exotic(SS["message"]["witnessScript"], 3)))
+    add("exotic-digit-tx", with_msg(SL, tx=exotic(SL["message"]["tx"], 9)))
+    add("exotic-digit-hash", dict(SH, message={"hash": exotic("12" * 32, 7)}))
+    add("exotic-digit-ud", {"command": "signerHeartbeat", "version": 5, "udValue": exotic("12" * 16, 2)})
+    add("exotic-digit-ud-fullwidth", {"command": "uiHeartbeat", "version": 5, "udValue": "\uff11" + "1" * 63})
     # --- blocks / brothers
     b1 = bytes.fromhex(N["advance-nobrothers"]["blocks"][0])
     fields = R.decode(b1)
@@ -235,6 +247,9 @@ def hostile_lines():
         n = target // len(big) + 2
         add("adv-line-%dMiB" % (target >> 20), adv([big] * n))
         add("upd-line-%dMiB" % (target >> 20), upd([big] * n))
+    add("exotic-digit-block", adv([exotic(b1.hex(), 4)]))
+    add("exotic-digit-brother", adv([b1.hex()], [[exotic(b1.hex(), 4)]]))
+    add("exotic-digit-upd", upd([exotic(b1.hex(), 4)]))
     for nb in (0, 1, 2, 10, 11, 12, 300):
         add("adv-%d-brothers" % nb, adv([b1.hex()], [[b1.hex()] * nb]))
     add("adv-300-blocks", adv([b1.hex()] * 300))
@@ -309,6 +324,7 @@ class C03(Check):
         cs.append({"kind": "hangups"})
         for label in SLOW_LABELS:
             cs.append({"kind": "slow", "label": label})
+        cs.append({"kind": "ders"})
         return cs
 
     # ------------------------------------------------------------------
@@ -417,6 +433,8 @@ class C03(Check):
                 self.socket_line(case["label"], dict(self.hostile)[case["label"]], stats, vs)
         elif k == "slow":
             self.socket_slow(case, dict(self.hostile)[case["label"]], stats, vs)
+        elif k == "ders":
+            self.ders(case, stats, vs)
         elif k == "hangups":
             N = {l: ln for l, ln in self.hostile}
             for label in ("empty", "utf8-bad-start", "not-json", "cmd-list", "input--1", "tx-empty-script",
@@ -426,6 +444,31 @@ class C03(Check):
                     for hang in ("before-send", "mid-line", "after-line"):
                         self.socket_hangup(label, N[label], hang, stats, vs)
         return vs
+
+    def ders(self, case, stats, vs):
+        """"as long as the device itself keeps to its protocol": every well-formed DER signature a
+        device may return (r, s of 1, 31, 32, 33 bytes, the 0x31 tag quirk, trailing bytes) for every
+        command that carries one - the client's line is answered and the manager goes on"""
+        from ..simdev.policy import der_menu
+        from ..env import Rng
+        good = der_menu(Rng("c03-der"))[0]
+        N = dialogues.nominal_requests()
+        for name, sig, r, s_ in good:
+            for rq in ("signerHeartbeat", "uiHeartbeat", "sign-hash", "sign-legacy", "v1-sign"):
+                v1 = rq.startswith("v1-")
+                stats.evaluations += 1
+                dev, w, proto = self.fresh(v1, False)
+                dev.signature_for = lambda material, sig=sig: sig
+                line = json.dumps(N[rq]).encode()
+                o = harness.handle_line(proto, line)
+                code = o.reply.get("errorcode") if isinstance(o.reply, dict) else None
+                stats.observe(("der", name, rq, code, o.exc))
+                if o.exc is not None or not isinstance(code, int) or isinstance(code, bool):
+                    vs.append(Violation("C03", "C03:unanswered-or-stopped:device-signature-%s:%s" % (name, rq),
+                                        {"kind": "ders"}, None,
+                                        {"raw": o.raw, "exc": o.exc, "error": o.error, "der": sig.hex()},
+                                        "one line with a JSON object holding an integer errorcode; no shutdown",
+                                        "device-within-protocol"))
 
     def socket_slow(self, case, line, stats, vs):
         """a client that pauses in the middle of its line (time passes: a socket time-out the
